@@ -265,11 +265,13 @@ func (x *runner) exec(o Op) error {
 			return fmt.Errorf("flush failed: %v", err)
 		}
 		x.record(o, fmt.Sprintf("OFlush %s", vk.Bool(pct != 0)), "ok")
+		x.or.flushed()
 	case "sync":
 		if err := x.t.Sync(); err != nil {
 			return fmt.Errorf("sync failed: %v", err)
 		}
 		x.record(o, "OSync", "ok")
+		x.or.flushed()
 	case "compact":
 		ts, err := x.t.Compact()
 		x.record(o, fmt.Sprintf("OCompact %s", optN(err == nil, ts)), fmt.Sprintf("%d %s", ts, errS(err)))
